@@ -7,33 +7,39 @@ import buidl.taproot as taproot
 from buidl.ecc import PrivateKey, S256Point
 from buidl.helper import SIGHASH_DEFAULT
 from buidl.script import P2TRScriptPubKey
-from buidl.taproot import MultiSigTapScript, MuSigTapScript, TapRootMultiSig
+from buidl.taproot import MultiSigTapScript, MuSigTapScript, P2PKTapScript, TapRootMultiSig
 from buidl.timelock import Locktime, Sequence
 from buidl.tx import Tx, TxIn, TxOut
 from buidl.witness import Witness
 
-from props.c12 import (G_, N_, P_, enc_point, enc_tree, mk_point, ref_add, ref_lift_x, ref_mul, ref_tagged)
+from props.c12 import (G_, N_, P_, enc_point, enc_tree, mk_cb, mk_point, ref_add, ref_lift_x, ref_mul, ref_tagged)
 
 PID = "C13"
 RULE = ("Key sets of size 2..5 with mixed parities of the participant points and of the aggregate, small and "
         "full-size secrets, nonces incl. 1, n-1 (and 0, which raises), messages of 32 bytes, with and without "
         "merkle root; one-key, duplicate-key and P/-P key sets (error behaviour); every (k, n) with 1 <= k <= n <= 5 "
         "for the five tree generators and the degrading tree, all k-subsets; altered (delta = 1, n-1, random) and "
-        "missing partial signatures; spends through Tx.verify_input with TxIn._value/_script_pubkey set.")
+        "missing partial signatures; spends through Tx.verify_input with TxIn._value/_script_pubkey set; "
+        "Tx.initialize_p2tr_multisig (empty / non-empty witness, MultiSig / MuSig / P2PK tap script, unserializable control "
+        "block) and Tx.finalize_p2tr_multisig (2..4 keys, every number of signers 0..n, signatures permuted, empty entries, "
+        "64- and 65-byte signatures with hash types 0, 1, 2, 3, 0x81..0x83, unknown hash type, lengths 1, 63, 66, r not on the "
+        "curve, s >= n, foreign and duplicate signers, uninitialised input, second call).")
 TRUSTED = ["hashlib (sha256) — sha256 is a universally quantified function in the theorems",
            "secp256k1 group law, order and primality: the explicit hypothesis scalar_laws C (instantiated on the toy curve)",
            "x-only lift (parse_xonly of the x coordinate of a valid point succeeds and returns the even-y point): "
            "explicit hypothesis xonly_lift_ok C, proved for the toy curve by computation",
            "harness-side independent reference: BIP340 verification and MuSig key aggregation on plain ints",
            "buidl.taproot.randbelow is replaced from the harness by the nonce stream of the case",
-           "modelled in other properties: sig_hash_bip341 (C05), script interpreter (C06/C07) used by the spend predicates"]
+           "modelled in other properties: sig_hash_bip341 (C05), script interpreter (C06/C07) used by the spend predicates",
+           "Tx.sig_hash inside finalize_p2tr_multisig is an argument of the model (sighash : hash type -> message); in the "
+           "'finalize' correspondence cases it is replaced on the Tx instance by a table, in the 'finalize_real' predicate the real one runs"]
 ASSUMPTIONS = ["participants have pairwise distinct x-only keys (a key and its negation collide in coef_lookup)",
                "aggregate key, nonce sums, R and the tweaked key are finite points (side conditions of the theorem; "
                "the implementation raises otherwise)",
                "k >= 2 for MuSig leaves (MuSigTapScript of a single key raises IndexError)"]
 BUDGET_S = {"quick": 900, "thorough": 3000}
 # 256-bit curve arithmetic is never evaluated inside Coq (DESIGN §3): only the pure functions are self-checked
-VM_SKIP = ("multisig_cmds", "musig_init", "musig_cmds", "nonce_points", "nonce_sums", "compute", "musig_sign",
+VM_SKIP = ("multisig_points", "initialize", "finalize", "multisig_cmds", "musig_init", "musig_cmds", "nonce_points", "nonce_sums", "compute", "musig_sign",
            "get_signature", "session", "trms_init", "tree", "degrading")
 
 # ------------------------------------------------------------------ reference
@@ -202,6 +208,58 @@ def i_degrading(pts, k, kind, interval):
     return _tree(tr.degrading_multisig_tree(**kw))
 
 
+
+def _stub_tx(items, tp):
+    """a Tx whose only input has the given witness items and tap_script (None | object with .points)"""
+    tx_in = TxIn(bytes(range(32)), 1)
+    tx_in.witness = Witness(list(items))
+    if tp == []:
+        tx_in.tap_script = None
+    else:
+        ts = MultiSigTapScript.__new__(MultiSigTapScript)
+        ts.points = [mk_point(p) for p in tp[0]]
+        tx_in.tap_script = ts
+    tx_out = TxOut(990000, P2TRScriptPubKey(S256Point.parse_xonly(G_[0].to_bytes(32, "big"))))
+    return Tx(1, [tx_in], [tx_out], 0, network="signet", segwit=True), tx_in
+
+
+def i_initialize(items, prior, cb, kind, pts, k):
+    points = [mk_point(p) for p in pts]
+    if kind == 0:
+        ts = MultiSigTapScript(points, k)
+    elif kind == 1:
+        ts = MuSigTapScript(points)
+    else:
+        ts = P2PKTapScript(points[0])
+    tx_obj, tx_in = _stub_tx(items, prior)
+    raised = 0
+    try:
+        tx_obj.initialize_p2tr_multisig(0, mk_cb(cb), ts)
+    except RuntimeError:
+        raised = 1
+    tp = tx_in.tap_script
+    return [list(tx_in.witness.items), [] if tp is None else [[enc_point(p) for p in tp.points]], raised]
+
+
+def i_finalize(items, tp, sigs, table):
+    tx_obj, tx_in = _stub_tx(items, tp)
+    tbl = {}
+    for h, m in table:
+        tbl.setdefault(h, m)
+    tx_obj.sig_hash = lambda input_index, hash_type: tbl[hash_type]
+    tx_obj.verify_input = lambda input_index: True
+    try:
+        tx_obj.finalize_p2tr_multisig(0, list(sigs))
+        done = 1
+    except RuntimeError as e:
+        if "initialize single leaf" in str(e):
+            raise
+        done = 0
+    except Exception:
+        done = 0
+    return [list(tx_in.witness.items), done]
+
+
 def _quiet(f):
     def g(*a):
         with contextlib.redirect_stdout(io.StringIO()):
@@ -224,6 +282,9 @@ IMPL = {k: _quiet(v) for k, v in {
     "trms_init": lambda pts, k: enc_point(TapRootMultiSig([mk_point(p) for p in pts], k).default_internal_pubkey),
     "tree": i_tree,
     "degrading": i_degrading,
+    "multisig_points": lambda pts: [enc_point(p) for p in MultiSigTapScript([mk_point(p) for p in pts], 1).points],
+    "initialize": i_initialize,
+    "finalize": i_finalize,
 }.items()}
 
 
@@ -430,7 +491,60 @@ def p_keypath(secrets, k, kind, seed):
     return None
 
 
-PROPS = {k: _quiet(v) for k, v in {"session": p_session, "session_reuse": p_session_reuse, "order": p_order, "ktree": p_ktree,
+
+def p_finalize_real(secrets, k, signers, hash_types, seed, blanks):
+    """single_leaf k-of-n output (n >= 2) spent through initialize_p2tr_multisig / finalize_p2tr_multisig with the REAL
+    sig_hash: the witness is <slot of the last sorted key> .. <slot of the first> <script> <control block> with the
+    signer's signature or b"" in each slot, whatever the order of the signatures handed over; finalize returns True iff
+    exactly k distinct keys signed, and that is what Tx.verify_input says about the assembled witness"""
+    import random
+    r = random.Random(seed)
+    privs = [PrivateKey(s) for s in secrets]
+    pts = [p.point for p in privs]
+    tr = TapRootMultiSig(pts, k)
+    internal = tr.default_internal_pubkey
+    leaf = tr.single_leaf()
+    spk = internal.p2tr_script(leaf.hash())
+    cb = leaf.control_block(internal, leaf)
+    if cb is None:
+        return "no control block for the single leaf"
+    witnesses = []
+    for rnd in range(2):
+        tx_obj, tx_in = _tx_for(spk)
+        tx_in.witness.items = []
+        tx_in.tap_script = None
+        tx_obj.initialize_p2tr_multisig(0, cb, leaf.tap_script)
+        if tx_in.witness.items != [leaf.tap_script.raw_serialize(), cb.serialize()] or tx_in.tap_script is not leaf.tap_script:
+            return "initialize_p2tr_multisig did not install [script, control block] and the tap script"
+        by_key = {}
+        sigs = []
+        for i, ht in zip(signers, hash_types):
+            sg = tx_obj.get_sig_taproot(0, privs[i], ext_flag=1, hash_type=ht)
+            by_key[pts[i].xonly()] = sg
+            sigs.append(sg)
+        if rnd == 0:
+            r.shuffle(sigs)
+            for _ in range(blanks):
+                sigs.insert(r.randrange(len(sigs) + 1), b"")
+        else:
+            sigs.reverse()
+        ok = tx_obj.finalize_p2tr_multisig(0, sigs)
+        expect = [by_key.get(x, b"") for x in sorted(p.xonly() for p in pts)][::-1]
+        expect += [leaf.tap_script.raw_serialize(), cb.serialize()]
+        if tx_in.witness.items != expect:
+            return f"witness after finalize is not in key order: {[len(x) for x in tx_in.witness.items]}"
+        want = len(set(signers)) == k
+        if bool(ok) != want:
+            return f"finalize returned {ok} with {len(set(signers))} signers for a {k}-of-{len(pts)} leaf"
+        if bool(tx_obj.verify_input(0)) != want:
+            return "verify_input disagrees with the value finalize returned"
+        witnesses.append(list(tx_in.witness.items))
+    if witnesses[0] != witnesses[1]:
+        return "the assembled witness depends on the order of the signatures"
+    return None
+
+
+PROPS = {k: _quiet(v) for k, v in {"finalize_real": p_finalize_real, "session": p_session, "session_reuse": p_session_reuse, "order": p_order, "ktree": p_ktree,
                                    "keypath": p_keypath}.items()}
 
 # ------------------------------------------------------------------ generators
@@ -477,6 +591,84 @@ def rand_nonce(r):
     if k < 0.4:
         return r.randrange(1, 1 << 16)
     return r.randrange(1, N_)
+
+
+
+HASH_TYPES = (0, 1, 2, 3, 0x81, 0x82, 0x83)
+
+
+def _schnorr(secret, msg, ht, aux=b"\x00" * 32):
+    raw = PrivateKey(secret).sign_schnorr(msg, aux).serialize()
+    return raw + bytes([ht]) if ht else raw
+
+
+def gen_finalize(ctx):
+    r = ctx.rng
+    cbv = [0xC0, 1, enc_point(point_of(5)), [ctx.rbytes(32)]]
+    for n in (2, 3, 4):
+        secrets = key_set(r, n)
+        pts = [enc_point(point_of(s)) for s in secrets]
+        ctx.label(f"finalize/n={n}")
+        yield ("corr", "multisig_points", [pts])
+        # initialize: fresh witness with each kind of tap script, non-empty witness, prior tap script
+        for kind in (0, 1, 2):
+            yield ("corr", "initialize", [[], [], cbv, kind, pts, r.randrange(1, n + 1)])
+        yield ("corr", "initialize", [[b"\x01"], [], cbv, 0, pts, 1])
+        yield ("corr", "initialize", [[b"\x01", b"\x02"], [[pts[0]]], cbv, 1, pts, 1])
+        yield ("corr", "initialize", [[], [[pts[0]]], cbv, 1, pts, 1])          # wrong type: witness replaced, old tap script kept
+        yield ("corr", "initialize", [[], [], [0xC0, 0x40, pts[0], []], 0, pts, 1])   # version + parity = 256: serialize raises
+        yield ("corr", "initialize", [[], [], cbv, 0, pts, 17])
+        # finalize against a sig_hash table
+        sorted_pts = [enc_point(p) for p in MultiSigTapScript([point_of(s) for s in secrets], 1).points]
+        tp = [sorted_pts]
+        table = [[ht, ctx.rbytes(32)] for ht in (0, 1, 3, 0x81)]
+        msg_of = dict((h, m) for h, m in table)
+        items = [ctx.rbytes(40), ctx.rbytes(65)]
+        for m in range(0, n + 1):
+            for _ in range(ctx.n(1, 4)):
+                who = r.sample(range(n), m)
+                sigs = []
+                for i in who:
+                    ht = r.choice((0, 0, 1, 3, 0x81))
+                    sigs.append(_schnorr(secrets[i], msg_of[ht], ht))
+                r.shuffle(sigs)
+                for _b in range(r.randrange(0, 3)):
+                    sigs.insert(r.randrange(len(sigs) + 1), b"")
+                ctx.label(f"finalize/signers={m}")
+                yield ("corr", "finalize", [items, tp, sigs, table])
+        s0 = _schnorr(secrets[0], msg_of[0], 0)
+        s1 = _schnorr(secrets[1], msg_of[1], 1)
+        foreign = _schnorr(r.randrange(1, N_), msg_of[0], 0)
+        wrong_msg = _schnorr(secrets[0], ctx.rbytes(32), 0)
+        dup = _schnorr(secrets[0], msg_of[0], 0, aux=ctx.rbytes(32))
+        bad_r = (P_ - 1).to_bytes(32, "big") + s0[32:]
+        off_curve = (5).to_bytes(32, "big") + s0[32:]          # x = 5 is not on secp256k1
+        big_s = s0[:32] + N_.to_bytes(32, "big")
+        for label, sigs in (
+                ("foreign", [foreign, s1]), ("wrong-msg", [wrong_msg, s1]), ("duplicate", [dup, s0, s1]), ("duplicate", [s0, dup]),
+                ("unknown-hashtype", [s1, s0[:64] + b"\x02"]), ("unknown-hashtype-first", [s0[:64] + b"\x02", s0, s1]),
+                ("len-1", [s0, b"\x00"]), ("len-63", [s0[:63], s1]), ("len-66", [s1, s0 + b"\x00\x00"]), ("len-32", [s0[:32]]),
+                ("r-not-field", [bad_r, s0]), ("r-off-curve", [s1, off_curve]), ("s>=n", [big_s, s0, s1]),
+                ("all-empty", [b"", b""]), ("none", []), ("same-twice", [s0, s0]),
+                ("flipped-bit", [bytes([s0[0] ^ 1]) + s0[1:], s1])):
+            ctx.label("finalize/" + label)
+            yield ("corr", "finalize", [items, tp, sigs, table])
+        # uninitialised input, too few items, second call on an already finalized witness
+        yield ("corr", "finalize", [items, [], [s0], table])
+        yield ("corr", "finalize", [items[:1], tp, [s0], table])
+        yield ("corr", "finalize", [[], tp, [s0], table])
+        yield ("corr", "finalize", [[s0, b""] + items, tp, [s0, s1], table])
+        yield ("corr", "finalize", [items, [[]], [s0], table])
+        # the real flow: every number of signers for a sampled threshold
+        for m in range(0, n + 1):
+            if ctx.tier != "thorough" and m not in (0, 1, n) and r.random() < 0.5:
+                continue
+            k = r.randrange(1, n + 1) if r.random() < 0.5 else max(1, m)
+            k = min(k, n)
+            who = r.sample(range(n), m)
+            hts = [r.choice(HASH_TYPES) for _ in who]
+            ctx.label(f"finalize_real/k={k}/n={n}/signers={m}")
+            yield ("prop", "finalize_real", [secrets, k, who, hts, r.getrandbits(30), r.randrange(0, 3)])
 
 
 def generate(ctx):
@@ -547,6 +739,28 @@ def generate(ctx):
             if len(parts) <= 3 and r.random() < 0.5:
                 ctx.label("session/reused-object")
                 yield ("prop", "session_reuse", [parts, msg, ctx.rbytes(32), root, r.getrandbits(30)])
+    # every combination of (aggregate parity, R parity, tweaked-key parity) with a merkle root: the four sign
+    # branches of sign() and the two of get_signature() (Example C13_toy_parity_branches is the Coq-side counterpart)
+    want = set(itertools.product((0, 1), repeat=3))
+    tries = 0
+    while want and tries < 120:
+        tries += 1
+        secrets = key_set(r, 2)
+        parts = [[s, rand_nonce(r), rand_nonce(r)] for s in secrets]
+        msg, root = ctx.rbytes(32), ctx.rbytes(32)
+        m = MuSigTapScript([point_of(s) for s in secrets])
+        try:
+            sums = m.nonce_sums([(point_of(p[1]), point_of(p[2])) for p in parts])
+            combo = (int(m.point.parity), int(m.compute_r(sums, msg).parity), int(m.point.tweaked_key(root).parity))
+        except Exception:
+            continue
+        if combo not in want:
+            continue
+        want.discard(combo)
+        ctx.label("session/parities(agg,R,ext)=%d%d%d" % combo)
+        yield ("corr", "session", [parts, msg, root])
+        if ctx.tier == "thorough" or combo[0] != combo[2]:
+            yield ("prop", "session", [parts, msg, root, r.getrandbits(30)])
     secrets = key_set(r, 2)
     pts = [enc_point(point_of(s)) for s in secrets]
     msg = ctx.rbytes(32)
@@ -594,6 +808,8 @@ def generate(ctx):
                 yield ("prop", "ktree", [secrets, k, 1, mask, r.getrandbits(30)])
                 if k >= 2:
                     yield ("prop", "ktree", [secrets, k, 2, mask, r.getrandbits(30)])
+    # --- Tx.initialize_p2tr_multisig / Tx.finalize_p2tr_multisig
+    yield from gen_finalize(ctx)
     for _ in range(ctx.n(2, 10)):
         n = r.randrange(2, 6)
         secrets = key_set(r, n)
